@@ -11,7 +11,8 @@
 (*   - a conditional get that finds the caller's version current writes    *)
 (*     no audit record; one that finds no such secret writes none either;  *)
 (*   - the audit encoder latches its first write error, so after one       *)
-(*     failed audit write every later call fails closed (auditOK);         *)
+(*     failed audit write every later call of the pinned code fails closed *)
+(*     (fault "latched"); a writer that recovers is equally allowed;       *)
 (*   - deleting an absent secret succeeds; re-putting the bytes of the     *)
 (*     newest version returns its number without saving;                   *)
 (*   - names with the reserved prefix can be read (never found) but never  *)
@@ -67,11 +68,16 @@ Out(op, who, n, val, ver, fault, reply, audit, saved, kek) ==
    reply |-> reply, audit |-> audit, saved |-> saved, kek |-> kek]
 
 (* --- the audit step ------------------------------------------------------ *)
-\* fault \in {"none", "auditWrite", "auditSync", "save"}.
+\* fault \in {"none", "auditWrite", "auditSync", "save", "latched"}.
+\* auditOK = FALSE records that an audit write has failed at some point.  Whether the writer recovers is the
+\* implementation's business (C06 only says that a request whose record cannot be written fails): the pinned writer
+\* latches its first error (json.Encoder) and every later call fails closed -- fault "latched", possible only after
+\* a failed write -- while a writer that starts afresh on the next record behaves as with fault "none".
+FaultPossible(fault) == fault = "latched" => ~auditOK
 \* AuditFails: this call's record cannot be written (or synced).
-AuditFails(fault) == ~auditOK \/ fault \in {"auditWrite", "auditSync"}
+AuditFails(fault) == fault \in {"auditWrite", "auditSync", "latched"}
 \* What reaches the log: a failed write leaves nothing; a failed sync leaves the line.
-AuditSeen(fault, e) == IF ~auditOK \/ fault = "auditWrite" THEN <<>> ELSE <<e>>
+AuditSeen(fault, e) == IF fault \in {"auditWrite", "latched"} THEN <<>> ELSE <<e>>
 AuditOKNext(fault) == auditOK /\ fault # "auditWrite"
 
 (* --- the data step (C02) -------------------------------------------------- *)
@@ -94,7 +100,8 @@ NoChange(op, who, n, val, ver, fault, reply, audit) ==
 Gate(op, action, who, rules, n, val, ver, fault, Body(_)) ==
   LET ok == Allowed(rules, action, n)
       e  == Entry(who, action, n, ver, ok)
-  IN  /\ auditOK' = AuditOKNext(fault)
+  IN  /\ FaultPossible(fault)
+      /\ auditOK' = AuditOKNext(fault)
       /\ IF ~ok
          THEN NoChange(op, who, n, val, ver, fault, Plain("denied"), AuditSeen(fault, e))
          ELSE IF AuditFails(fault)
@@ -124,7 +131,7 @@ GetVersion(who, rules, n, ver, fault) ==
 GetCond(who, rules, n, ver, fault) ==
   LET ok == Allowed(rules, "get", n)
       e(auth) == Entry(who, "get", n, 0, auth)
-  IN  /\ fault # "save"
+  IN  /\ fault # "save" /\ FaultPossible(fault)
       /\ IF ~ok
          THEN /\ auditOK' = AuditOKNext(fault)
               /\ NoChange("getcond", who, n, Nil, ver, fault, Plain("denied"), AuditSeen(fault, e(FALSE)))
@@ -142,7 +149,7 @@ GetCond(who, rules, n, ver, fault) ==
 
 Put(who, rules, n, v, fault) ==
   IF Cp(n) = <<>>
-  THEN /\ UNCHANGED auditOK                   \* refused before the ACL: nothing logged
+  THEN /\ FaultPossible(fault) /\ UNCHANGED auditOK                   \* refused before the ACL: nothing logged
        /\ NoChange("put", who, n, v, 0, fault, Plain("error"), <<>>)
   ELSE
   LET Body(e) ==
@@ -160,7 +167,7 @@ Put(who, rules, n, v, fault) ==
 
 Activate(who, rules, n, ver, fault) ==
   IF Cp(n) = <<>>
-  THEN /\ UNCHANGED auditOK
+  THEN /\ FaultPossible(fault) /\ UNCHANGED auditOK
        /\ NoChange("activate", who, n, Nil, ver, fault, Plain("error"), <<>>)
   ELSE
   LET Body(e) ==
@@ -196,7 +203,7 @@ Delete(who, rules, n, fault) ==
 ListNames(rules) == {n \in Names : Exists(n) /\ Allowed(rules, "info", n)}
 List(who, rules, fault) ==
   LET e == Entry(who, "info", "", 0, TRUE) IN
-  /\ fault # "save"
+  /\ fault # "save" /\ FaultPossible(fault)
   /\ auditOK' = AuditOKNext(fault)
   /\ IF AuditFails(fault)
      THEN NoChange("list", who, "", Nil, 0, fault, Plain("error"), AuditSeen(fault, e))
@@ -240,13 +247,13 @@ ActionOf(op) == CASE op \in {"get", "getver", "getcond"} -> "get"
 IsCall == last.op \notin {"reopen", "create"}
 AuditFirst ==
   IsCall =>
-    /\ (last.reply.val # Nil \/ last.saved \/ (last.reply.class = "denied" /\ auditOK)) =>
+    /\ (last.reply.val # Nil \/ last.saved \/ (last.reply.class = "denied" /\ last.fault \notin {"auditWrite", "latched"})) =>
           /\ Len(last.audit) = 1
           /\ last.audit[1].action = ActionOf(last.op)
           /\ last.audit[1].name = last.name
           /\ last.audit[1].who = last.who
           /\ last.audit[1].authorized = (last.reply.class # "denied")
-    /\ last.fault \in {"auditWrite", "auditSync"} => last.reply.val = Nil /\ ~last.saved
+    /\ last.fault \in {"auditWrite", "auditSync", "latched"} => last.reply.val = Nil /\ ~last.saved
     /\ last.reply.class = "notchanged" => last.audit = <<>>
     /\ Len(last.audit) <= 1
 
